@@ -1,12 +1,12 @@
 package govc
 
 import (
-	"strconv"
-	"go/constant"
-	"sort"
 	"fmt"
+	"go/constant"
 	"go/types"
 	"regexp"
+	"sort"
+	"strconv"
 	"strings"
 
 	"golang.org/x/tools/go/ssa"
